@@ -507,13 +507,21 @@ func cfbRunConnSession(tr *vk.Trace, s cfbSession, classes map[string]int) {
 		chunkSeed = rng.Int63() | 1
 	}
 	endA, endB, _, _ := rconNewDuplex(chunkSeed, []int{1, 7, 16, 17, 100, 1500}[rng.Intn(6)])
-	mk := func(end *rconMemEnd) *mcnet.Conn {
-		c := mcnet.WrapConn(end)
+	// late: the connection starts in the clear (as the login does) and encryption is switched on in mid-stream - the
+	// sender's first encrypted bytes may already be queued behind its last plaintext packet when the receiver switches
+	late := s.ID%3 == 1
+	enable := func(c *mcnet.Conn) {
 		blk, err := aes.NewCipher(key)
 		if err != nil {
 			panic(err)
 		}
 		c.SetCipher(CFB8.NewCFB8Encrypt(blk, iv), CFB8.NewCFB8Decrypt(blk, iv))
+	}
+	mk := func(end *rconMemEnd) *mcnet.Conn {
+		c := mcnet.WrapConn(end)
+		if !late {
+			enable(c)
+		}
 		c.SetThreshold(thr)
 		return c
 	}
@@ -571,6 +579,40 @@ func cfbRunConnSession(tr *vk.Trace, s cfbSession, classes map[string]int) {
 		}
 		tr.Add(map[string]any{"k": k, "d": d, "ok": err == nil, "id": p.ID, "len": len(p.Data), "sha": hex.EncodeToString(h[:8])})
 		return err == nil || expectNone
+	}
+	if late {
+		// a -> b only until both ends have switched: plaintext packets, a switches, encrypted packets; only then does b
+		// read the plaintext ones, switch, and read the rest
+		np, ne := 1+rng.Intn(2), 1+rng.Intn(3)
+		for i := 0; i < np; i++ {
+			if !send("ab") {
+				return
+			}
+		}
+		if p, msg := catch(func() { enable(a) }); p {
+			tr.Add(map[string]any{"k": "panic", "msg": msg})
+			return
+		}
+		for i := 0; i < ne; i++ {
+			if !send("ab") {
+				return
+			}
+		}
+		for i := 0; i < np; i++ {
+			if !recv("ab", false) {
+				return
+			}
+		}
+		if p, msg := catch(func() { enable(b) }); p {
+			tr.Add(map[string]any{"k": "panic", "msg": msg})
+			return
+		}
+		for i := 0; i < ne; i++ {
+			if !recv("ab", false) {
+				return
+			}
+		}
+		classes[fmt.Sprintf("conn/thr%d/late-cipher", thr)]++
 	}
 	n := 4 + rng.Intn(30)
 	for i := 0; i < n; i++ {
